@@ -8,7 +8,7 @@ RULE = ("TLC explores the recovery decision of the small-limit VM model for ever
         "unbounded recursion, value-stack exhaustion) x 10 contexts (plain, try-catch, try-finally, catch-rethrow, Invoker callback, try inside a pooled / unpooled callback, a function the host invokes after Run through a pooled / unpooled Invoker, "
         "callback inside try) x 3 depths (shallow, within 1..6 frames of the 1024-frame limit, within a frame of the 2048-slot stack) - "
         "is instantiated and run with SetRecover(true) under the harness's own recover, with 4 argument sets of various types and "
-        "counts, followed by a probe script on the same VM; non-trivial = cases at depth != shallow or in a callback; failures inside the locked region of a *SyncMap (index without String), struck again after being caught")
+        "counts, followed by a probe script on the same VM; Go panics recovered while the VM is being aborted (histories shared with C09); non-trivial = cases at depth != shallow or in a callback; failures inside the locked region of a *SyncMap (index without String), struck again after being caught")
 
 def run(ctx):
     out = ctx.path("matrix.ndjson")
@@ -28,6 +28,17 @@ def run(ctx):
         c = r["case"]
         key = "%s|%s|%s|%s|%s" % (c["Kind"], c["Ctx"], c["Depth"], r["depth"], r["what"][:30])
         ctx.violation(key, "%s in %s at %s(%s), argument set %s: %s" % (c["Kind"], c["Ctx"], c["Depth"], r["depth"], r.get("args"), r["what"]), r)
+    # a Go panic recovered while the VM is being aborted (the histories of C09): the panic is delivered to the script's
+    # handler or the run ends with an error - never with a value and no error
+    ares = ctx.path("abort-panic.ndjson")
+    ctx.vh("abortreuse", ares, timeout=600)
+    for r in vlib.read_ndjson(ares):
+        if r.get("done") or r.get("catch") != "panic":
+            continue
+        runs += 1
+        if not r["ok"] and "not the aborted error" in r.get("what", ""):
+            ctx.violation("abortpanic|%s|%s" % (r["pooled"], r["k"]), "Go panic while the VM is aborted (handler %s, in %s): %s\n%s" % (r["pooled"], r["k"], r["what"], r["src"]),
+                          dict(case=dict(src=r["src"]), what=r["what"]))
     if runs == 0:
         raise vlib.Inconclusive("no runs")
     ctx.evaluations = runs
